@@ -133,6 +133,9 @@ def falsify(ctx):
         for s in samples[:2]:
             try:
                 hit = check_case(s, fields, regex, registry)
+            except stages.TooCostly:
+                ctx.count("skip:too-costly")
+                continue
             except Exception as e:  # noqa
                 hit = {"kind": "raises", "observed": f"{type(e).__name__}: {e}"}
             enc = repr(s)
@@ -147,5 +150,7 @@ def falsify(ctx):
 def replay(ctx, hit):
     try:
         return check_case(hit["sample"], hit["fields"], hit["regex"], stages.make_registry())
+    except stages.TooCostly:
+        raise
     except Exception as e:  # noqa
         return {"kind": "raises", "observed": f"{type(e).__name__}: {e}"}
